@@ -181,3 +181,8 @@ func Run(name string, f func()) {
 	}()
 	f()
 }
+
+// Summarise asks the engine to execute the named side-effect-free function on all of its
+// paths and merge the results (callee paths add up instead of multiplying). The name is
+// the SSA name, e.g. "(github.com/berquerant/crd/note.Degree).Semitone". Natively a no-op.
+func Summarise(name string) {}
